@@ -44,7 +44,7 @@ REQUIRED_CLASSES = (
     + ["block.key=16", "block.key=24", "block.key=32", "block.vector=fips197"]
     + ["mode=ecb", "mode=cbc", "mode=cfb8", "mode=cfb128", "mode=ofb", "mode=ctr", "via=raw", "via=feeder", "dir=enc", "dir=dec",
        "padding=default", "padding=none", "split.chunks>=2", "split.has-1-byte-chunk", "data.len%16!=0", "data.len=0", "ctr.wrap", "ctr.carry",
-       "ctr.default", "iv=default", "mode.key=16", "mode.key=24", "mode.key=32", "vector=sp800-38a"]
+       "ctr.default", "iv=default", "via=stream-helper", "stream-helper.short-read-before-eof", "mode.key=16", "mode.key=24", "mode.key=32", "vector=sp800-38a"]
     + ["adapter.iv=given", "adapter.iv=none", "adapter.iv=omitted", "adapter.len%16==0", "adapter.len%16!=0", "adapter.trailing00", "adapter.all-zero",
        "adapter.objects=shared", "adapter.objects=fresh"]
     + ["hist.same-object>=2calls", "hist.adapters-sharing-key", "hist.adapter+mode-interleaved", "hist.ctr-default>=2", "hist.iv-attr-set", "hist.cmac"]
@@ -478,6 +478,45 @@ def check_mode(case, rec):
     if got != want:
         raise Violation("%s: %d input bytes in chunks %s gave %d bytes %s, standard result has %d bytes %s" % (
             desc, len(stream), [len(x) for x in chunks][:20], len(got), _h(got), len(want), _h(want)))
+    if via == "feeder":
+        # the stream helpers (encrypt_stream / decrypt_stream) over an input stream that delivers the same chunks as SHORT READS - read(n)
+        # may return fewer than n bytes before end of file (raw streams, pipes, sockets); only an empty read means EOF
+        import io as _io
+
+        class ShortReads(object):
+            def __init__(self, parts):
+                self.parts = [p for p in parts if p]
+                self.calls = 0
+
+            def read(self, n=-1):
+                self.calls += 1
+                if not self.parts:
+                    return b""
+                c = self.parts[0]
+                if n is None or n < 0 or n >= len(c):
+                    self.parts.pop(0)
+                    return c
+                self.parts[0] = c[n:]
+                return c[:n]
+
+        bs = (16, 64, 1, 23, 4096)[(len(stream) + len(chunks)) % 5]
+        rec.cls("via=stream-helper")
+        if any(len(c) < bs for c in chunks[:-1]):
+            rec.cls("stream-helper.short-read-before-eof")
+        src, dst = ShortReads(chunks), _io.BytesIO()
+        helper = blockfeeder.decrypt_stream if decrypt else blockfeeder.encrypt_stream
+        try:
+            m2 = make_mode(case)
+            if padding == "default" and case.get("padding_omitted"):
+                helper(m2, src, dst, bs)
+            else:
+                helper(m2, src, dst, bs, padding)
+        except Exception as e:
+            raise Violation("%s: %s over a stream delivering reads of %s bytes (block_size %d) raised %s: %s" % (
+                desc, helper.__name__, [len(x) for x in chunks][:20], bs, type(e).__name__, e))
+        if dst.getvalue() != want:
+            raise Violation("%s: %s over a stream delivering reads of %s bytes (block_size %d) wrote %d bytes %s, standard result has %d bytes %s" % (
+                desc, helper.__name__, [len(x) for x in chunks][:20], bs, len(dst.getvalue()), _h(dst.getvalue()), len(want), _h(want)))
 
 
 def counters():
